@@ -31,7 +31,7 @@ REQUIRED_THEOREMS = ['clock24', 'clock24_partial', 'clock24_hour0_unresolved', '
                      'now_is_reference_datetime', 'end_of_day_is_235959', 'ago_later_seconds', 'ago_later_spec',
                      # Props/C07Front (text -> groups: parse_basic_regex_match on the regenerated English time regexes)
                      'front_groups_en', 'front_clock24', 'front_clock12', 'front_ambiguous_two_readings', 'front_hhmmss_engine',
-                     'front_2500_rejected', 'front_765_rejected', 'layouts_shape']
+                     'front_2500_rejected', 'front_765_rejected', 'layouts_shape', 'front_12am_12pm']
 RULE = ('unit: DateTimeFormatUtil over full ranges (luis_time/short_time 24x60x{none,0..59}, luis_date, format_*, '
         'to_pm, all_str_to_pm); match_to_time on every match of AtRegex/TimeRegex1..11/ConnectNumRegex over generated '
         'English time strings (digits x minutes x seconds x am/pm spellings x prefixes x suffixes x written forms); '
